@@ -33,6 +33,35 @@ class CallPath:
         return '%s: %s => %s' % (self.call, ' ; '.join(map(repr, self.events)), self.result)
 
 
+def initial_states(prog, timeout_ms=60000):
+    """The holder as each public constructor builds it (their own MIR): {ctor: {'state': int, 'cell_none': bool}}."""
+    out = {}
+    for ctor, trait in (('new', None), ('default', 'Default')):
+        name = prog.find_impl_method(ctor, 'SingletonHolder<T>', trait) if trait else prog.find_impl_method(ctor, 'SingletonHolder<T>')
+        if name is None:
+            continue
+        ex = Explorer(prog, timeout_ms=timeout_ms)
+        stubs.install(ex)
+        got = []
+
+        def entry(ex, name=name):
+            return ex.call(name, [])
+
+        def on_path(ex, res, status):
+            if status != 'ok':
+                raise Unsupported('SingletonHolder::%s ends with %s' % (ctor, status))
+            got.append(res)
+        ex.run(entry, on_path)
+        if len(got) != 1 or not isinstance(got[0], Agg):
+            raise Unsupported('SingletonHolder::%s: %d paths' % (ctor, len(got)))
+        st = [f_ for f_ in got[0].fields if isinstance(f_, Native) and f_.rty == 'Atomic']
+        cl = [f_ for f_ in got[0].fields if isinstance(f_, Native) and f_.rty == 'UnsafeCell']
+        if len(st) != 1 or len(cl) != 1 or st[0].state.v.concrete() is None:
+            raise Unsupported('SingletonHolder::%s builds %r' % (ctor, got[0]))
+        out[ctor] = {'state': int(st[0].state.v.concrete()), 'cell_none': is_variant(cl[0].state.v, 'None')}
+    return out
+
+
 def extract(prog, timeout_ms=60000):
     """Paths of set / get / is_set with their events. Returns {call: [CallPath]} and stats."""
     out = {}
@@ -89,6 +118,10 @@ def extract(prog, timeout_ms=60000):
                 return 'unit'
             r = ex.call(name, [Ref(hc)])
             if call == 'is_set':
+                if r.concrete() is None:
+                    # the answer depends on the word that was loaded: one path per answer
+                    t = r.t
+                    return 'true' if ex.choose_bool(t if z3.is_bool(t) else t != 0) else 'false'
                 return 'true' if r.concrete() else 'false'
             return 'some' if is_variant(r, 'Some') else 'none'
 
@@ -108,10 +141,36 @@ def extract(prog, timeout_ms=60000):
 # axiomatic encoding of one program (calls assigned to threads)
 # ---------------------------------------------------------------------------------------------------------
 
+_COMPLETE = {}
+
+
+def complete_value(paths):
+    """The state word that means 'set': the unique value the `true` path of is_set() requires of its load."""
+    key = id(paths)
+    if key not in _COMPLETE:
+        tp = [p for p in paths['is_set'] if p.result == 'true']
+        if len(tp) != 1:
+            raise Unsupported('is_set has %d paths returning true' % len(tp))
+        rs = [e.rsym for e in tp[0].events if e.rsym is not None]
+        if len(rs) != 1:
+            raise Unsupported('is_set reads the state %d times' % len(rs))
+        s = z3.Solver()
+        s.add(*tp[0].pc)
+        if s.check() != z3.sat:
+            raise Unsupported('is_set can never return true')
+        v = s.model().eval(rs[0], model_completion=True).as_long()
+        s.add(rs[0] != v)
+        if s.check() != z3.unsat:
+            raise Unsupported('is_set returns true for more than one state word')
+        _COMPLETE[key] = (paths, v)
+    return _COMPLETE[key][1]
+
+
 class Execution:
-    def __init__(self, paths, program):
-        """program: list of threads, each a list of call names."""
+    def __init__(self, paths, program, init_state=0):
+        """program: list of threads, each a list of call names; init_state: the state word the constructor stores."""
         self.paths, self.program = paths, program
+        self.init_state = init_state
         self.cons = []
         self.events = []      # dicts
         self.build()
@@ -120,7 +179,7 @@ class Execution:
         cons = self.cons
         evs = self.events
         # initial writes (hb-before everything)
-        init_state = {'id': 0, 'thr': -1, 'po': 0, 'kind': 'W', 'loc': 'state', 'order': 'Relaxed', 'wval': z3.BitVecVal(0, 64), 'active': z3.BoolVal(True), 'call': None, 'init': True}
+        init_state = {'id': 0, 'thr': -1, 'po': 0, 'kind': 'W', 'loc': 'state', 'order': 'Relaxed', 'wval': z3.BitVecVal(self.init_state, 64), 'active': z3.BoolVal(True), 'call': None, 'init': True}
         init_val = {'id': 1, 'thr': -1, 'po': 0, 'kind': 'NAW', 'loc': 'value', 'order': None, 'wval': None, 'active': z3.BoolVal(True), 'call': None, 'init': True}
         evs += [init_state, init_val]
         self.calls = []
@@ -293,18 +352,24 @@ class Execution:
     def unset_again(self):
         """a read of the state word that happens-after a completed set but does not see COMPLETE (a later set disturbed the holder)"""
         evs = self.events
+        comp = complete_value(self.paths)
         stores = [e for e in evs if e['kind'] in ('W', 'RMW') and e['loc'] == 'state' and not e.get('init') and e.get('wval') is not None
-                  and not z3.is_false(z3.simplify(e['wval'] == 2))]
+                  and not z3.is_false(z3.simplify(e['wval'] == comp))]
         bad = []
         for r in evs:
             if r['kind'] in ('R', 'RMW') and r['loc'] == 'state' and r.get('callname') in ('get', 'is_set'):
                 for w in stores:
-                    bad.append(z3.And(w['active'], r['active'], w['wval'] == 2, self.hb[w['id']][r['id']], r['rval'] != 2))
+                    bad.append(z3.And(w['active'], r['active'], w['wval'] == comp, self.hb[w['id']][r['id']], r['rval'] != comp))
         return z3.Or(*bad) if bad else z3.BoolVal(False)
 
     def premature_set(self):
-        """is_set / get reports 'set' although no set has stored COMPLETE hb-before or concurrently... (value 2 only comes from a store)"""
-        return z3.BoolVal(False)
+        """is_set / get sees the COMPLETE word in the constructor's own initial write: 'set' is reported although no set ran"""
+        comp = complete_value(self.paths)
+        bad = []
+        for r in self.events:
+            if r['kind'] in ('R', 'RMW') and r['loc'] == 'state' and r.get('callname') in ('get', 'is_set') and r['id'] in self.rf:
+                bad.append(z3.And(r['active'], self.rf[r['id']] == 0, r['rval'] == comp))
+        return z3.Or(*bad) if bad else z3.BoolVal(False)
 
     def check(self, cond, timeout_ms=60000):
         s = z3.Solver()
